@@ -5,6 +5,11 @@ HARNESSES = [
     COMMON["dec13"]("record13_mem", [], ns=((48, "quick"), (96, "thorough")), checks=M),
     COMMON["api_recv"](only=None),
     COMMON["hs_dispatch"](),
+    dict(name="supp_versions", src="supp_versions.c", checks=M, units=["matrixssl/hsNegotiateVersion.c"],
+         functions=["tls13ParseSupportedVersions", "psVerFromEncodingMajMin"], sources=["matrixssl/tls13DecodeExt.c"],
+         assumptions=["supp_versions: extension body is an object of exactly VF_N bytes (sizes 2..9 enumerated), contents arbitrary"],
+         undefined_ok="*", unwind=40,
+         cases=[dict(name="n%d" % n, defs={"VF_N": n}) for n in range(2, 10)]),
 ]
 PROPERTY = dict(level='model_checking',
     claim="CBMC's memory-safety instrumentation (bounds, pointer, div-by-zero, shift) on the real record decoders for every input within the bound from every RI-state; every loop has a checked unwinding bound (termination within the bound).",
